@@ -389,40 +389,6 @@ Definition rt_domain (h : state) : bool :=
 
 Definition find_last {A} (f : A -> bool) (l : list A) : option A := find f (rev l).
 
-(* resolution of one NodeDeviceConfigurationProto against the deserialized model; threads the
-   fresh-identity counters and new name bindings for placeholders *)
-Definition rt_acc := (list (Z * str) * Z * Z)%type.   (* new name bindings, nextv, nextc *)
-
-Fixpoint rt_specs (h : state) (sc : Z) (specs : list spec) (acc : rt_acc) : list spec * rt_acc :=
-  match specs with
-  | [] => ([], acc)
-  | sp :: r =>
-      let nm := name_of h (sp_val sp) in
-      match resolve h sc nm with
-      | Some v => let '(r', acc') := rt_specs h sc r acc in (mkS v (sp_dev sp) (sp_dims sp) :: r', acc')
-      | None =>
-          let '(names, nv, nc) := acc in
-          let ph := mkV nv None in
-          let '(r', acc') := rt_specs h sc r ((nv, nm) :: names, nv + 1, nc) in
-          (mkS ph (sp_dev sp) (sp_dims sp) :: r', acc')
-      end
-  end.
-
-Fixpoint rt_dcs (h : state) (cfgs : list cfgobj) (sc : Z) (dcs : list ndc) (acc : rt_acc) : list ndc * rt_acc :=
-  match dcs with
-  | [] => ([], acc)
-  | dc :: r =>
-      let nm := c_name (dc_cfg dc) in
-      let '(cfg, acc1) :=
-        match find_last (fun c => str_eqb (c_name c) nm) cfgs with
-        | Some c => (c, acc)
-        | None => let '(names, nv, nc) := acc in (mkC nc nm 0, (names, nv, nc + 1))
-        end in
-      let '(specs, acc2) := rt_specs h sc (dc_specs dc) acc1 in
-      let '(r', acc3) := rt_dcs h cfgs sc r acc2 in
-      (mkDC cfg (dc_stage dc) specs :: r', acc3)
-  end.
-
 Definition MULTI_DEVICE_SUPPORTED_VERSION := 11.
 
 (* which nodes get their device configurations serialized: at IR >= 11 all of them, below 11 none — the gate
@@ -433,23 +399,87 @@ Definition rt_keep (h : state) (n : Z) : bool := MULTI_DEVICE_SUPPORTED_VERSION 
 Definition ser_ok (h : state) : bool :=
   forallb (fun p => negb (rt_keep h (fst p)) || forallb (ser_dc_ok h) (n_dc (snd p))) (s_nodes h).
 
-Fixpoint rt_nodes (h : state) (cfgs : list cfgobj) (nodes : list (Z * node)) (acc : rt_acc)
-  : list (Z * node) * rt_acc :=
-  match nodes with
-  | [] => ([], acc)
-  | (n, nd) :: r =>
-      let '(dcs, acc1) := if rt_keep h n then rt_dcs h cfgs (node_scope h n) (n_dc nd) acc else ([], acc) in
-      let '(r', acc2) := rt_nodes h cfgs r acc1 in
-      ((n, with_dc nd dcs) :: r', acc2)
+(* ---- serialize_model: the multi-device content of the ModelProto, everything by NAME:
+   ModelProto.configuration = [(name, num_devices)], and for every NodeProto (all_nodes order, nested bodies
+   included) its device_configurations = [(configuration_id, pipeline_stage, [(tensor_name, device, dims)])] *)
+Record mproto := mkMP { mp_cfgs : list (str * Z); mp_nodes : list (Z * list pdc) }.
+
+Definition ser_dc_raw (h : state) (dc : ndc) : pdc :=
+  (c_name (dc_cfg dc), dc_stage dc, map (ser_spec h) (dc_specs dc)).
+
+Definition ser_model (h : state) : res mproto :=
+  if negb (ser_ok h) then Raise RuntimeError        (* SerdeError: a reference without a name *)
+  else Ok (mkMP (if s_ir h <? MULTI_DEVICE_SUPPORTED_VERSION then []
+                 else map (fun c => (c_name c, c_ndev c)) (s_cfgs h))
+                (map (fun p => (fst p, if rt_keep h (fst p) then map (ser_dc_raw h) (n_dc (snd p)) else []))
+                     (s_nodes h))).
+
+(* ---- deserialize_model: names back to objects.  The graph skeleton (nodes, inputs/outputs, value names, scopes)
+   is the part of the proto this model does not describe; it is taken from h, and the deserialized objects keep
+   the identities of the objects at the same position (values: same graph input / node output; configurations:
+   same index in ModelProto.configuration).  Everything about the ANNOTATIONS is rebuilt from the proto alone:
+   tensor_name through the scope stack (resolve), configuration_id through the deserialized configurations,
+   placeholders (fresh identities, threaded in rt_acc) for names that resolve to nothing. *)
+Definition rt_acc := (list (Z * str) * Z * Z)%type.   (* new name bindings, nextv, nextc *)
+
+Fixpoint de_cfgs (olds : list cfgobj) (ps : list (str * Z)) : list cfgobj :=
+  match olds, ps with
+  | c :: r, (nm, nd) :: pr => mkC (c_id c) nm nd :: de_cfgs r pr
+  | _, _ => []
   end.
 
+Definition de_dims (dims : list (Z * Z)) : list sdim := map (fun d => mkD (fst d) (snd d)) dims.
+
+Fixpoint de_specs (h : state) (sc : Z) (ps : list pspec) (acc : rt_acc) : list spec * rt_acc :=
+  match ps with
+  | [] => ([], acc)
+  | (nm, devs, dims) :: r =>
+      match resolve h sc nm with
+      | Some v => let '(r', acc') := de_specs h sc r acc in (mkS v devs (de_dims dims) :: r', acc')
+      | None =>
+          let '(names, nv, nc) := acc in
+          let ph := mkV nv None in
+          let '(r', acc') := de_specs h sc r ((nv, nm) :: names, nv + 1, nc) in
+          (mkS ph devs (de_dims dims) :: r', acc')
+      end
+  end.
+
+Fixpoint de_dcs (h : state) (cfgs : list cfgobj) (sc : Z) (pds : list pdc) (acc : rt_acc) : list ndc * rt_acc :=
+  match pds with
+  | [] => ([], acc)
+  | (nm, stage, pspecs) :: r =>
+      let '(cfg, acc1) :=
+        match find_last (fun c => str_eqb (c_name c) nm) cfgs with
+        | Some c => (c, acc)
+        | None => let '(names, nv, nc) := acc in (mkC nc nm 0, (names, nv, nc + 1))
+        end in
+      let '(specs, acc2) := de_specs h sc pspecs acc1 in
+      let '(r', acc3) := de_dcs h cfgs sc r acc2 in
+      (mkDC cfg stage specs :: r', acc3)
+  end.
+
+Fixpoint de_nodes (h : state) (cfgs : list cfgobj) (nodes : list (Z * node)) (pn : list (Z * list pdc))
+         (acc : rt_acc) : list (Z * node) * rt_acc :=
+  match nodes, pn with
+  | (n, nd) :: r, (_, pds) :: pr =>
+      let '(dcs, acc1) := de_dcs h cfgs (node_scope h n) pds acc in
+      let '(r', acc2) := de_nodes h cfgs r pr acc1 in
+      ((n, with_dc nd dcs) :: r', acc2)
+  | _, _ => ([], acc)
+  end.
+
+Definition deser (h : state) (p : mproto) : state :=
+  let cfgs := de_cfgs (s_cfgs h) (mp_cfgs p) in
+  let '(nodes, (names, nv, nc)) := de_nodes h cfgs (s_nodes h) (mp_nodes p) ([], s_nextv h, s_nextc h) in
+  mkSt (rev names ++ s_names h) nodes (s_gin h) cfgs nv nc (s_ir h) (s_sc h).
+
+(* ir.from_proto (ir.to_proto model) *)
 Definition roundtrip (h : state) : state * res unit :=
   if negb (rt_domain h) then (h, Raise OtherError)           (* outside the modelled domain *)
-  else if negb (ser_ok h) then (h, Raise RuntimeError)        (* SerdeError *)
-  else
-    let cfgs := if s_ir h <? MULTI_DEVICE_SUPPORTED_VERSION then [] else s_cfgs h in
-    let '(nodes, (names, nv, nc)) := rt_nodes h cfgs (s_nodes h) ([], s_nextv h, s_nextc h) in
-    (mkSt (rev names ++ s_names h) nodes (s_gin h) cfgs nv nc (s_ir h) (s_sc h), Ok tt).
+  else match ser_model h with
+       | Raise e => (h, Raise e)
+       | Ok p => (deser h p, Ok tt)
+       end.
 
 (* ---------------------------------------------------------------- _check_device_configurations *)
 (* a message is (kind, node handle, integer argument):
@@ -551,24 +581,34 @@ Definition pdc_eqb (a b : pdc) : bool :=
 (* what the harness observes on the implementation after an op *)
 Record obs := mkObs {
   o_res   : res unit;
-  o_nodes : list (Z * node);
+  o_nodes : option (list (Z * node));       (* None: the nodes are exactly as before the op *)
   o_gin   : list valobj;
   o_cfgs  : list cfgobj;
-  o_names : list (valobj * str);            (* names of the live values *)
+  o_names : list (valobj * str);            (* names of the live values (those that may have changed) *)
   o_check : list err;                       (* _check_device_configurations, classified *)
-  o_ser   : list (Z * list (res pdc)) }.    (* serialize_node_device_configuration per node dc *)
+  o_ser   : list (Z * list (res pdc));      (* serialize_node_device_configuration per node dc *)
+  o_proto : option (res mproto) }.          (* multi-device content of ir.to_proto(model), when taken *)
 
 Definition ser_all (h : state) : list (Z * list (res pdc)) :=
   map (fun p => (fst p, map (ser_dc h) (n_dc (snd p)))) (s_nodes h).
 
-Definition obs_agree (h : state) (r : res unit) (o : obs) : bool :=
+Definition mproto_eqb (a b : mproto) : bool :=
+  list_eqb (fun x y => str_eqb (fst x) (fst y) && (snd x =? snd y)) (mp_cfgs a) (mp_cfgs b)
+  && list_eqb (fun x y => (fst x =? fst y) && list_eqb pdc_eqb (snd x) (snd y)) (mp_nodes a) (mp_nodes b).
+
+Definition nodes_eqb : list (Z * node) -> list (Z * node) -> bool :=
+  list_eqb (fun a b => (fst a =? fst b) && node_eqb (snd a) (snd b)).
+
+(* hp: the state before the op (the harness abbreviates "nodes unchanged" to keep the case files small) *)
+Definition obs_agree (hp h : state) (r : res unit) (o : obs) : bool :=
   res_eqb (fun _ _ => true) r (o_res o)
-  && list_eqb (fun a b => (fst a =? fst b) && node_eqb (snd a) (snd b)) (s_nodes h) (o_nodes o)
+  && nodes_eqb (s_nodes h) (match o_nodes o with Some l => l | None => s_nodes hp end)
   && list_eqb v_eqb (s_gin h) (o_gin o)
   && list_eqb c_eqb (s_cfgs h) (o_cfgs o)
   && forallb (fun p => str_eqb (name_of h (fst p)) (snd p)) (o_names o)
   && list_eqb err_eqb (check h) (o_check o)
-  && list_eqb (fun a b => (fst a =? fst b) && list_eqb (res_eqb pdc_eqb) (snd a) (snd b)) (ser_all h) (o_ser o).
+  && list_eqb (fun a b => (fst a =? fst b) && list_eqb (res_eqb pdc_eqb) (snd a) (snd b)) (ser_all h) (o_ser o)
+  && match o_proto o with None => true | Some p => res_eqb mproto_eqb (ser_model h) p end.
 
 (* index (1-based) of the first step whose observation disagrees, 0 if the whole history agrees *)
 Fixpoint first_diff (h : state) (steps : list (op * obs)) (i : nat) : nat :=
@@ -576,7 +616,7 @@ Fixpoint first_diff (h : state) (steps : list (op * obs)) (i : nat) : nat :=
   | [] => O
   | (o, ob) :: r =>
       let '(h', res) := exec h o in
-      if obs_agree h' res ob then first_diff h' r (S i) else S i
+      if obs_agree h h' res ob then first_diff h' r (S i) else S i
   end.
 Definition case_agree (c : state * list (op * obs)) : bool :=
   match first_diff (fst c) (snd c) 0 with O => true | _ => false end.
